@@ -16,10 +16,40 @@ Lemma Ev_atom_name i r : Ev MAtom (PN i :: r) (Name i, r).
 Proof. ev_start 0. reflexivity. Qed.
 Lemma Ev_atom_lit c r : Ev MAtom (PL c :: r) (Constant c, r).
 Proof. ev_start 0. reflexivity. Qed.
-Lemma Ev_atom_paren r e r' : Ev (MExpr TOP) r (e, PK ")" :: r') -> Ev MAtom (PK "(" :: r) (e, r').
+Lemma Ev_atom_paren' r res : Ev (MElems ")" [] false) r res -> Ev MAtom (PK "(" :: r) res.
+Proof. intros [f0 H]. ev_start f0. change (String.eqb "(" "(") with true. cbv iota. apply H. lia. Qed.
+Lemma Ev_atom_list r l r' : Ev (MElems "]" [] false) r (ETuple l, r') -> Ev MAtom (PK "[" :: r) (EList l, r').
 Proof.
-  intros [f0 H]. ev_start f0. change (String.eqb "(" "(") with true. cbv iota. rewrite H by lia.
-  change (String.eqb ")" ")") with true. reflexivity.
+  intros [f0 H]. ev_start f0. change (String.eqb "[" "(") with false. change (String.eqb "[" "[") with true. cbv iota.
+  rewrite H by lia. reflexivity.
+Qed.
+Lemma Ev_atom_set r x l r' : Ev (MElems "}" [] false) r (ETuple (x :: l), r') -> Ev MAtom (PK "{" :: r) (ESet (x :: l), r').
+Proof.
+  intros [f0 H]. ev_start f0. change (String.eqb "{" "(") with false. change (String.eqb "{" "[") with false.
+  change (String.eqb "{" "{") with true. cbv iota. rewrite H by lia. reflexivity.
+Qed.
+
+(* one element of a display: `*v` or an expression *)
+Definition elem_ev (ts : list pt) (e : expr) (r : list pt) : Prop :=
+  (hd_is "*" ts = true /\ exists v, e = Starred v /\ Ev (MExpr slot_Starred_value) (tl ts) (v, r)) \/
+  (hd_is "*" ts = false /\ Ev (MExpr TOP) ts (e, r)).
+
+Lemma Ev_elems_close cl acc cm r x : finish cl acc cm = Some x -> Ev (MElems cl acc cm) (PK cl :: r) (x, r).
+Proof. intros H. ev_start 0. cbn [hd_is is_key]. rewrite String.eqb_refl, H. reflexivity. Qed.
+
+Lemma Ev_elems_more cl acc cm ts e r res :
+  hd_is cl ts = false -> elem_ev ts e (PK "," :: r) -> Ev (MElems cl (e :: acc) true) r res -> Ev (MElems cl acc cm) ts res.
+Proof.
+  intros Hh [[Hs [v [-> [f1 H1]]]]|[Hs [f1 H1]]] [f2 H2]; ev_start (Nat.max f1 f2); rewrite Hh, Hs, H1 by lia;
+    change (String.eqb "," ",") with true; cbv iota; apply H2; lia.
+Qed.
+
+Lemma Ev_elems_last cl acc cm ts e r x :
+  hd_is cl ts = false -> elem_ev ts e (PK cl :: r) -> String.eqb cl "," = false -> finish cl (e :: acc) cm = Some x ->
+  Ev (MElems cl acc cm) ts (x, r).
+Proof.
+  intros Hh [[Hs [v [-> [f1 H1]]]]|[Hs [f1 H1]]] Hne Hfin; ev_start f1; rewrite Hh, Hs, H1 by lia;
+    rewrite Hne, String.eqb_refl, Hfin; reflexivity.
 Qed.
 
 Lemma Ev_expr_atom n ts a r res :
@@ -79,12 +109,12 @@ Proof. intros Hc [f1 H1]. ev_start f1. rewrite Hc. apply H1. lia. Qed.
 Lemma Ev_loop_dot n l ch a r res : Ev (MLoop n (Attribute l a) CNone) r res -> Ev (MLoop n l ch) (PK "." :: PN a :: r) res.
 Proof. apply Ev_loop_dot'. reflexivity. Qed.
 
-Lemma Ev_loop_call' n l ch ts r args r' res :
+Lemma Ev_loop_call' n l ch ts r fn args kws r' res :
   classify ts = KLPar r ->
-  Ev (MArgs []) r (ETuple args, r') -> Ev (MLoop n (Call l args []) CNone) r' res -> Ev (MLoop n l ch) ts res.
+  Ev (MArgs [] []) r (Call fn args kws, r') -> Ev (MLoop n (Call l args kws) CNone) r' res -> Ev (MLoop n l ch) ts res.
 Proof. intros Hc [f1 H1] [f2 H2]. ev_start (Nat.max f1 f2). rewrite Hc, H1 by lia. apply H2. lia. Qed.
-Lemma Ev_loop_call n l ch r args r' res :
-  Ev (MArgs []) r (ETuple args, r') -> Ev (MLoop n (Call l args []) CNone) r' res -> Ev (MLoop n l ch) (PK "(" :: r) res.
+Lemma Ev_loop_call n l ch r fn args kws r' res :
+  Ev (MArgs [] []) r (Call fn args kws, r') -> Ev (MLoop n (Call l args kws) CNone) r' res -> Ev (MLoop n l ch) (PK "(" :: r) res.
 Proof. apply Ev_loop_call'. reflexivity. Qed.
 
 Lemma Ev_loop_sub' n l ch ts r s r' res :
@@ -135,21 +165,64 @@ Proof.
   intros Hc Hp [f1 H1] [f2 H2]. ev_start (Nat.max f1 f2). rewrite Hc. apply Nat.leb_le in Hp. rewrite Hp, H1 by lia. apply H2. lia.
 Qed.
 
-Lemma Ev_args_nil acc r : Ev (MArgs acc) (PK ")" :: r) (ETuple (rev acc), r).
+(* what follows an argument: a comma and more arguments, or the closing parenthesis *)
+Definition args_cont (rest : list pt) (acc : list expr) (kws : list (option ident * expr)) (res : expr * list pt) : Prop :=
+  (exists r, rest = PK "," :: r /\ Ev (MArgs acc kws) r res) \/
+  (exists r, rest = PK ")" :: r /\ res = (args_carrier acc kws, r)).
+
+Definition is_kwstart (ts : list pt) : bool := match ts with PN _ :: t2 :: _ => is_key "=" t2 | _ => false end.
+
+Lemma Ev_args_close acc kws r : Ev (MArgs acc kws) (PK ")" :: r) (args_carrier acc kws, r).
 Proof. ev_start 0. reflexivity. Qed.
 
-Lemma Ev_args_more acc ts a r res :
-  hd_is ")" ts = false -> Ev (MExpr TOP) ts (a, PK "," :: r) -> Ev (MArgs (a :: acc)) r res -> Ev (MArgs acc) ts res.
+Lemma Ev_args_dstar acc kws ts v rest res :
+  hd_is ")" ts = false -> hd_is "**" ts = true -> Ev (MExpr slot_Call_kwarg) (tl ts) (v, rest) ->
+  args_cont rest acc ((None, v) :: kws) res -> Ev (MArgs acc kws) ts res.
 Proof.
-  intros Hh [f1 H1] [f2 H2]. ev_start (Nat.max f1 f2). rewrite Hh, H1 by lia.
-  change (String.eqb "," ",") with true. cbv iota. apply H2. lia.
+  intros H1 H2 [f1 E1] [[r [-> [f2 E2]]]|[r [-> ->]]].
+  - ev_start (Nat.max f1 f2). rewrite H1, H2, E1 by lia. change (String.eqb "," ",") with true. cbv iota. apply E2. lia.
+  - ev_start f1. rewrite H1, H2, E1 by lia. reflexivity.
 Qed.
 
-Lemma Ev_args_last acc ts a r :
-  hd_is ")" ts = false -> Ev (MExpr TOP) ts (a, PK ")" :: r) -> Ev (MArgs acc) ts (ETuple (rev (a :: acc)), r).
+Lemma Ev_args_star acc kws ts v rest res :
+  hd_is ")" ts = false -> hd_is "**" ts = false -> hd_is "*" ts = true -> Ev (MExpr slot_Starred_value) (tl ts) (v, rest) ->
+  args_cont rest (Starred v :: acc) kws res -> Ev (MArgs acc kws) ts res.
 Proof.
-  intros Hh [f1 H1]. ev_start f1. rewrite Hh, H1 by lia.
-  change (String.eqb ")" ",") with false. change (String.eqb ")" ")") with true. reflexivity.
+  intros H1 H2 H3 [f1 E1] [[r [-> [f2 E2]]]|[r [-> ->]]].
+  - ev_start (Nat.max f1 f2). rewrite H1, H2, H3, E1 by lia. change (String.eqb "," ",") with true. cbv iota. apply E2. lia.
+  - ev_start f1. rewrite H1, H2, H3, E1 by lia. reflexivity.
+Qed.
+
+Lemma Ev_args_kw acc kws k r0 v rest res :
+  Ev (MExpr slot_Call_kwarg) r0 (v, rest) -> args_cont rest acc ((Some k, v) :: kws) res ->
+  Ev (MArgs acc kws) (PN k :: PK "=" :: r0) res.
+Proof.
+  intros [f1 E1] [[r [-> [f2 E2]]]|[r [-> ->]]].
+  - ev_start (Nat.max f1 f2). cbn [hd_is is_key]. change (String.eqb "=" "=") with true. cbv iota. rewrite E1 by lia.
+    change (String.eqb "," ",") with true. cbv iota. apply E2. lia.
+  - ev_start f1. cbn [hd_is is_key]. change (String.eqb "=" "=") with true. cbv iota. rewrite E1 by lia. reflexivity.
+Qed.
+
+Lemma Ev_args_pos acc kws ts a rest res :
+  hd_is ")" ts = false -> hd_is "**" ts = false -> hd_is "*" ts = false -> is_kwstart ts = false ->
+  Ev (MExpr TOP) ts (a, rest) -> args_cont rest (a :: acc) kws res -> Ev (MArgs acc kws) ts res.
+Proof.
+  intros H1 H2 H3 H4 [f1 E1] Hc.
+  assert (G : forall f, f1 <= f ->
+    (match ts with
+     | PN k :: PK s :: r =>
+         if String.eqb s "=" then None
+         else pc f (MExpr TOP) ts
+     | _ => pc f (MExpr TOP) ts
+     end) = Some (a, rest) \/ True) by (intros; right; exact I).
+  clear G.
+  destruct Hc as [[r [-> [f2 E2]]]|[r [-> ->]]].
+  - ev_start (Nat.max f1 f2). rewrite H1, H2, H3.
+    destruct ts as [|[i|c|s] [|[i2|c2|s2] r2]]; try (rewrite E1 by lia; change (String.eqb "," ",") with true; cbv iota; apply E2; lia).
+    cbn [is_kwstart is_key] in H4. rewrite H4. rewrite E1 by lia. change (String.eqb "," ",") with true. cbv iota. apply E2. lia.
+  - ev_start f1. rewrite H1, H2, H3.
+    destruct ts as [|[i|c|s] [|[i2|c2|s2] r2]]; try (rewrite E1 by lia; reflexivity).
+    cbn [is_kwstart is_key] in H4. rewrite H4. rewrite E1 by lia. reflexivity.
 Qed.
 
 (* the chain flag only matters when the chain's own operator follows *)
@@ -235,33 +308,38 @@ Proof.
   - apply IH. exact Ht.
 Qed.
 
+Lemma ec_core e : core e && negb (is_starred e) = true -> core e = true.
+Proof. intros H. apply andb_prop in H as [H _]. exact H. Qed.
+Lemma ec_nostar e : core e && negb (is_starred e) = true -> is_starred e = false.
+Proof. intros H. apply andb_prop in H as [_ H]. apply negb_true_iff in H. exact H. Qed.
+
 Lemma safe_of_rest_ok : forall e, core e = true -> forall s rest, node_prec e <= s -> rest_okb s rest = true -> safe e rest = true.
 Proof.
   induction e using expr_ind'; intros Hc s rest Hp Hr; cbn [core] in Hc; try discriminate; cbn [safe]; try reflexivity.
   - (* Name *) unfold rest_okb in Hr. apply andb_prop in Hr as [Hr _]. exact Hr.
   - (* BinOp *) apply andb_prop in Hc as [Hc1 Hc2]. destruct (rest_ok_desc s rest (DBin o) Hr Hp) as [He Hl].
     rewrite He. cbn [andb]. destruct (Nat.leb (node_prec e2) (slot_BinOp_right o)) eqn:E; [|reflexivity].
-    apply Nat.leb_le in E. apply (IHe2 Hc2 s rest); [cbn [d_rl] in Hl; lia|exact Hr].
+    apply Nat.leb_le in E. apply (IHe2 (ec_core _ Hc2) s rest); [cbn [d_rl] in Hl; lia|exact Hr].
   - (* BoolOp *) apply andb_prop in Hc as [_ Hc]. destruct (rest_ok_desc s rest (DBool o) Hr Hp) as [He Hl]. rewrite He. cbn [andb].
     apply (safe_last_ok (fun _ => true)). rewrite forallb_forall in Hc. unfold Pl in H. rewrite Forall_forall in H |- *.
-    intros v Hv Hpv. apply (H v Hv (Hc v Hv) s rest); [cbn [d_rl] in Hl; lia|exact Hr].
+    intros v Hv Hpv. apply (H v Hv (ec_core _ (Hc v Hv)) s rest); [cbn [d_rl] in Hl; lia|exact Hr].
   - (* UnaryOp *) destruct (rest_ok_desc s rest (DUn o) Hr Hp) as [He Hl]. rewrite He. cbn [andb].
     destruct (Nat.leb (node_prec e) (slot_UnaryOp o)) eqn:E; [|reflexivity].
-    apply Nat.leb_le in E. apply (IHe Hc s rest); [cbn [d_rl] in Hl; lia|exact Hr].
+    apply Nat.leb_le in E. apply (IHe (ec_core _ Hc) s rest); [cbn [d_rl] in Hl; lia|exact Hr].
   - (* Compare *) apply andb_prop in Hc as [_ Hc]. destruct (rest_ok_desc s rest DCmp Hr Hp) as [He Hl]. rewrite He. cbn [andb].
     apply (safe_last_ok (fun _ => true)). rewrite forallb_forall in Hc. unfold Pl in H. rewrite Forall_forall in H |- *.
-    intros v Hv Hpv. apply (H v Hv (Hc v Hv) s rest); [cbn [d_rl] in Hl; lia|exact Hr].
+    intros v Hv Hpv. apply (H v Hv (ec_core _ (Hc v Hv)) s rest); [cbn [d_rl] in Hl; lia|exact Hr].
   - (* NamedExpr *) destruct (rest_ok_desc s rest DWal Hr Hp) as [He Hl]. rewrite He. cbn [andb].
     destruct (Nat.leb (node_prec e) slot_NamedExpr_value) eqn:E; [|reflexivity].
-    apply Nat.leb_le in E. apply (IHe Hc s rest); [cbn [d_rl] in Hl; lia|exact Hr].
+    apply Nat.leb_le in E. apply (IHe (ec_core _ Hc) s rest); [cbn [d_rl] in Hl; lia|exact Hr].
   - (* Lambda *) destruct po; [|discriminate]. destruct ar; [|discriminate]. destruct va; [discriminate|]. destruct ko; [|discriminate].
     destruct kd; [|discriminate]. destruct kw; [discriminate|]. destruct de; [|discriminate].
     destruct (rest_ok_desc s rest DLam Hr Hp) as [He Hl]. rewrite He. cbn [andb].
     destruct (Nat.leb (node_prec e) slot_Lambda_body) eqn:E; [|reflexivity].
-    apply Nat.leb_le in E. apply (IHe Hc s rest); [cbn [d_rl] in Hl; lia|exact Hr].
+    apply Nat.leb_le in E. apply (IHe (ec_core _ Hc) s rest); [cbn [d_rl] in Hl; lia|exact Hr].
   - (* IfExp *) apply andb_prop in Hc as [Hc Hc3]. destruct (rest_ok_desc s rest DIf Hr Hp) as [He Hl]. rewrite He. cbn [andb].
     destruct (Nat.leb (node_prec e3) slot_IfExp_orelse) eqn:E; [|reflexivity].
-    apply Nat.leb_le in E. apply (IHe3 Hc3 s rest); [cbn [d_rl] in Hl; lia|exact Hr].
+    apply Nat.leb_le in E. apply (IHe3 (ec_core _ Hc3) s rest); [cbn [d_rl] in Hl; lia|exact Hr].
 Qed.
 
 (* ---------- facts about the tables regenerated from the code (finite checks) ---------- *)
@@ -280,7 +358,7 @@ Proof. destruct o; reflexivity. Qed.
 Lemma prefix_name i r : nowal r = true -> classify_prefix (PN i :: r) = PAtom.
 Proof. unfold nowal. intros H. apply negb_true_iff in H. cbn [classify_prefix]. rewrite H. reflexivity. Qed.
 
-Definition closer (k : string) : bool := existsb (String.eqb k) [")"; ","; "]"; "else"].
+Definition closer (k : string) : bool := existsb (String.eqb k) [")"; ","; "]"; "else"; "}"].
 
 Lemma continues_closer m k r : closer k = true -> continues m (PK k :: r) = false.
 Proof.
@@ -393,38 +471,68 @@ Qed.
 
 (* ---------- the first token of a printed expression ---------- *)
 Definition start_tok (t : pt) : bool :=
-  match t with PN _ | PL _ => true | PK k => existsb (String.eqb k) ["("; "lambda"; "not"; "-"; "+"; "~"] end.
+  match t with PN _ | PL _ => true | PK k => existsb (String.eqb k) ["("; "lambda"; "not"; "-"; "+"; "~"; "["; "{"; "*"] end.
 
-Lemma pparen_head b ts rest :
-  (exists t r, ts ++ rest = t :: r /\ start_tok t = true) ->
-  exists t r, pparen b ts ++ rest = t :: r /\ start_tok t = true.
-Proof. intros H. destruct b; [|exact H]. eexists _, _. split; [reflexivity|reflexivity]. Qed.
+(* the first token; it is `*` only for a starred expression *)
+Definition head_ok (e : expr) (ts : list pt) : Prop :=
+  exists t r, ts = t :: r /\ start_tok t = true /\ (is_key "*" t = true -> is_starred e = true).
 
-Lemma pp_head : forall e, core e = true -> forall s rest, exists t r, pp s e ++ rest = t :: r /\ start_tok t = true.
+Lemma pparen_head e b ts rest : head_ok e (ts ++ rest) -> head_ok e (pparen b ts ++ rest).
+Proof. intros H. destruct b; [|exact H]. eexists _, _. split; [reflexivity|]. split; [reflexivity|discriminate]. Qed.
+
+Lemma head_ok_child e e' ts : is_starred e = false -> head_ok e ts -> head_ok e' ts.
+Proof. intros Hs [t [r [E [Hst Hk]]]]. exists t, r. split; [exact E|]. split; [exact Hst|]. intros K. specialize (Hk K). congruence. Qed.
+
+Lemma pp_head : forall e, core e = true -> forall s rest, head_ok e (pp s e ++ rest).
 Proof.
   induction e using expr_ind'; intros Hc s rest; cbn [core] in Hc; try discriminate; rewrite pp_unfold; apply pparen_head; cbn [pbody].
-  - eexists _, _. split; reflexivity.
-  - eexists _, _. split; reflexivity.
-  - apply andb_prop in Hc as [Hc1 _]. rewrite <- app_assoc. apply IHe1. exact Hc1.
-  - apply andb_prop in Hc as [Hl Hc]. destruct vs as [|v1 [|v2 t]]; try discriminate.
+  - eexists _, _. split; [reflexivity|]. split; [reflexivity|discriminate].
+  - eexists _, _. split; [reflexivity|]. split; [reflexivity|discriminate].
+  - (* Starred *) eexists _, _. split; [reflexivity|]. split; reflexivity.
+  - (* BinOp *) apply andb_prop in Hc as [Hc1 _]. rewrite <- app_assoc.
+    apply (head_ok_child e1); [exact (ec_nostar _ Hc1)|]. apply IHe1. exact (ec_core _ Hc1).
+  - (* BoolOp *) apply andb_prop in Hc as [Hl Hc]. destruct vs as [|v1 [|v2 t]]; try discriminate.
     unfold Pl in H. inversion H as [|? ? H1 _]; subst. cbn [forallb] in Hc. apply andb_prop in Hc as [Hc1 _].
-    cbn [map join]. rewrite <- app_assoc. apply H1. exact Hc1.
-  - destruct o; eexists _, _; split; reflexivity.
-  - apply andb_prop in Hc as [Hc _]. apply andb_prop in Hc as [Hc _]. apply andb_prop in Hc as [Hc1 _].
-    rewrite <- app_assoc. apply IHe. exact Hc1.
-  - rewrite <- app_assoc. apply pparen_head. apply IHe. exact Hc.
-  - apply andb_prop in Hc as [Hc _]. apply andb_prop in Hc as [Hc1 _]. rewrite <- app_assoc. apply IHe1. exact Hc1.
-  - destruct kws; [|discriminate]. apply andb_prop in Hc as [Hc1 _]. rewrite <- app_assoc. apply IHe. exact Hc1.
-  - eexists _, _. split; reflexivity.
-  - eexists _, _. split; reflexivity.
-  - apply andb_prop in Hc as [Hc _]. apply andb_prop in Hc as [_ Hc2]. rewrite <- app_assoc. apply IHe2. exact Hc2.
+    cbn [map join]. rewrite <- app_assoc.
+    apply (head_ok_child v1); [exact (ec_nostar _ Hc1)|]. apply H1. exact (ec_core _ Hc1).
+  - (* UnaryOp *) destruct o; eexists _, _; (split; [reflexivity|]); (split; [reflexivity|discriminate]).
+  - (* List *) eexists _, _. split; [reflexivity|]. split; [reflexivity|discriminate].
+  - (* Tuple *) destruct l as [|x [|y t]]; eexists _, _; (split; [reflexivity|]); (split; [reflexivity|discriminate]).
+  - (* Set *) eexists _, _. split; [reflexivity|]. split; [reflexivity|discriminate].
+  - (* Compare *) apply andb_prop in Hc as [Hc _]. apply andb_prop in Hc as [Hc _]. apply andb_prop in Hc as [Hc1 _].
+    rewrite <- app_assoc. apply (head_ok_child e); [exact (ec_nostar _ Hc1)|]. apply IHe. exact (ec_core _ Hc1).
+  - (* Attribute *) rewrite <- app_assoc. apply pparen_head.
+    apply (head_ok_child e); [exact (ec_nostar _ Hc)|]. apply IHe. exact (ec_core _ Hc).
+  - (* Subscript *) apply andb_prop in Hc as [Hc _]. apply andb_prop in Hc as [Hc1 _]. rewrite <- app_assoc.
+    apply (head_ok_child e1); [exact (ec_nostar _ Hc1)|]. apply IHe1. exact (ec_core _ Hc1).
+  - (* Call *) apply andb_prop in Hc as [Hc _]. apply andb_prop in Hc as [Hc1 _]. rewrite <- app_assoc.
+    apply (head_ok_child e); [exact (ec_nostar _ Hc1)|]. apply IHe. exact (ec_core _ Hc1).
+  - (* NamedExpr *) eexists _, _. split; [reflexivity|]. split; [reflexivity|discriminate].
+  - (* Lambda *) eexists _, _. split; [reflexivity|]. split; [reflexivity|discriminate].
+  - (* IfExp *) apply andb_prop in Hc as [Hc _]. apply andb_prop in Hc as [_ Hc2]. rewrite <- app_assoc.
+    apply (head_ok_child e2); [exact (ec_nostar _ Hc2)|]. apply IHe2. exact (ec_core _ Hc2).
+Qed.
+
+Lemma start_not (k : string) t : start_tok t = true ->
+  existsb (String.eqb k) ["("; "lambda"; "not"; "-"; "+"; "~"; "["; "{"; "*"] = false -> is_key k t = false.
+Proof.
+  intros Ht Hk. destruct t as [i|c|k']; try reflexivity. cbn [is_key start_tok] in *.
+  destruct (String.eqb_spec k' k) as [->|]; [|reflexivity]. rewrite Hk in Ht. discriminate.
+Qed.
+
+Lemma pp_head_not_key k e s rest : core e = true ->
+  existsb (String.eqb k) ["("; "lambda"; "not"; "-"; "+"; "~"; "["; "{"; "*"] = false -> hd_is k (pp s e ++ rest) = false.
+Proof.
+  intros Hc Hk. destruct (pp_head e Hc s rest) as [t [r [E [Ht _]]]]. rewrite E. cbn [hd_is]. apply start_not; assumption.
 Qed.
 
 Lemma pp_head_not_close e s rest : core e = true -> hd_is ")" (pp s e ++ rest) = false.
+Proof. intros Hc. apply pp_head_not_key; [exact Hc|reflexivity]. Qed.
+
+Lemma pp_head_nostar e s rest : core e = true -> is_starred e = false -> hd_is "*" (pp s e ++ rest) = false.
 Proof.
-  intros Hc. destruct (pp_head e Hc s rest) as [t [r [E Ht]]]. rewrite E. destruct t as [i|c|k]; try reflexivity.
-  cbn [hd_is is_key start_tok existsb] in *.
-  repeat (apply orb_prop in Ht as [Ht|Ht]; [apply String.eqb_eq in Ht; subst k; reflexivity|]). discriminate.
+  intros Hc Hs. destruct (pp_head e Hc s rest) as [t [r [E [_ Hk]]]]. rewrite E. cbn [hd_is].
+  destruct (is_key "*" t) eqn:K; [|reflexivity]. specialize (Hk eq_refl). congruence.
 Qed.
 
 (* an expression printed in a slot below `not` does not begin with the keyword `not` (so `is` followed by it is `is`) *)
@@ -437,20 +545,45 @@ Lemma pp_head_not_not : forall e, core e = true -> forall s rest, below_not s ->
 Proof.
   unfold below_not.
   induction e using expr_ind'; intros Hc s rest Hs; cbn [core] in Hc; try discriminate; rewrite pp_unfold; apply pparen_not;
-    intros Hb; apply Nat.ltb_ge in Hb; cbn [pbody node_prec] in *.
-  - reflexivity.
-  - reflexivity.
-  - apply andb_prop in Hc as [Hc1 _]. rewrite <- app_assoc. apply IHe1; [exact Hc1|destruct o; vm_compute; lia].
-  - exfalso. destruct o; vm_compute in Hb, Hs; lia.
-  - destruct o; try reflexivity. exfalso. vm_compute in Hb, Hs. lia.
-  - apply andb_prop in Hc as [Hc _]. apply andb_prop in Hc as [Hc _]. apply andb_prop in Hc as [Hc1 _].
-    rewrite <- app_assoc. apply IHe; [exact Hc1|vm_compute; lia].
-  - rewrite <- app_assoc. apply pparen_not. intros _. apply IHe; [exact Hc|vm_compute; lia].
-  - apply andb_prop in Hc as [Hc _]. apply andb_prop in Hc as [Hc1 _]. rewrite <- app_assoc. apply IHe1; [exact Hc1|vm_compute; lia].
-  - destruct kws; [|discriminate]. apply andb_prop in Hc as [Hc1 _]. rewrite <- app_assoc. apply IHe; [exact Hc1|vm_compute; lia].
-  - reflexivity.
-  - reflexivity.
-  - exfalso. vm_compute in Hb, Hs. lia.
+    intros Hb; apply Nat.ltb_ge in Hb; cbn [pbody node_prec] in *; try reflexivity.
+  - (* BinOp *) apply andb_prop in Hc as [Hc1 _]. rewrite <- app_assoc. apply IHe1; [exact (ec_core _ Hc1)|destruct o; vm_compute; lia].
+  - (* BoolOp *) exfalso. destruct o; vm_compute in Hb, Hs; lia.
+  - (* UnaryOp *) destruct o; try reflexivity. exfalso. vm_compute in Hb, Hs. lia.
+  - (* Tuple *) destruct l as [|x [|y t]]; reflexivity.
+  - (* Compare *) apply andb_prop in Hc as [Hc _]. apply andb_prop in Hc as [Hc _]. apply andb_prop in Hc as [Hc1 _].
+    rewrite <- app_assoc. apply IHe; [exact (ec_core _ Hc1)|vm_compute; lia].
+  - (* Attribute *) rewrite <- app_assoc. apply pparen_not. intros _. apply IHe; [exact (ec_core _ Hc)|vm_compute; lia].
+  - (* Subscript *) apply andb_prop in Hc as [Hc _]. apply andb_prop in Hc as [Hc1 _]. rewrite <- app_assoc.
+    apply IHe1; [exact (ec_core _ Hc1)|vm_compute; lia].
+  - (* Call *) apply andb_prop in Hc as [Hc _]. apply andb_prop in Hc as [Hc1 _]. rewrite <- app_assoc.
+    apply IHe; [exact (ec_core _ Hc1)|vm_compute; lia].
+  - (* IfExp *) exfalso. vm_compute in Hb, Hs. lia.
+Qed.
+
+(* a positional argument is not mistaken for a keyword argument: the token after a leading name is never `=` *)
+Lemma pparen_nokw b ts rest : (b = false -> is_kwstart (ts ++ rest) = false) -> is_kwstart (pparen b ts ++ rest) = false.
+Proof. destruct b; intros H; [reflexivity|apply H; reflexivity]. Qed.
+
+Lemma pp_nokw : forall e, core e = true -> forall s rest, hd_is "=" rest = false -> is_kwstart (pp s e ++ rest) = false.
+Proof.
+  induction e using expr_ind'; intros Hc s rest Hr; cbn [core] in Hc; try discriminate; rewrite pp_unfold; apply pparen_nokw;
+    intros _; cbn [pbody]; try reflexivity.
+  - (* Name *) destruct rest as [|t r]; [reflexivity|exact Hr].
+  - (* BinOp *) apply andb_prop in Hc as [Hc1 _]. rewrite <- app_assoc. apply IHe1; [exact (ec_core _ Hc1)|destruct o; reflexivity].
+  - (* BoolOp *) apply andb_prop in Hc as [Hl Hc]. destruct vs as [|v1 [|v2 t]]; try discriminate.
+    unfold Pl in H. inversion H as [|? ? H1 _]; subst. cbn [forallb] in Hc. apply andb_prop in Hc as [Hc1 _].
+    cbn [map join]. rewrite <- app_assoc. apply H1; [exact (ec_core _ Hc1)|destruct o; reflexivity].
+  - (* Tuple *) destruct l as [|x [|y t]]; reflexivity.
+  - (* Compare *) apply andb_prop in Hc as [Hc Hcs]. apply andb_prop in Hc as [Hc Hl1]. apply andb_prop in Hc as [Hc1 Hlen].
+    rewrite <- app_assoc. apply IHe; [exact (ec_core _ Hc1)|].
+    destruct cs as [|c cs']; [discriminate|]. destruct ops as [|o ops']; [discriminate|]. destruct o; reflexivity.
+  - (* Attribute *) rewrite <- app_assoc. apply pparen_nokw. intros _. apply IHe; [exact (ec_core _ Hc)|reflexivity].
+  - (* Subscript *) apply andb_prop in Hc as [Hc _]. apply andb_prop in Hc as [Hc1 _]. rewrite <- app_assoc.
+    apply IHe1; [exact (ec_core _ Hc1)|reflexivity].
+  - (* Call *) apply andb_prop in Hc as [Hc _]. apply andb_prop in Hc as [Hc1 _]. rewrite <- app_assoc.
+    apply IHe; [exact (ec_core _ Hc1)|reflexivity].
+  - (* IfExp *) apply andb_prop in Hc as [Hc _]. apply andb_prop in Hc as [_ Hc2]. rewrite <- app_assoc.
+    apply IHe2; [exact (ec_core _ Hc2)|reflexivity].
 Qed.
 
 (* ---------- the round trip ---------- *)
@@ -458,17 +591,43 @@ Definition A_stmt (e : expr) : Prop :=
   forall n rest res, node_prec e <= n -> safe e rest = true ->
     Ev (MLoop n e CNone) rest res -> Ev (MExpr n) (pbody e ++ rest) res.
 
-Lemma child_of_A e : core e = true -> A_stmt e ->
+Lemma closer_facts k : closer k = true ->
+  String.eqb k "*" = false /\ String.eqb k "=" = false /\ String.eqb k "**" = false.
+Proof.
+  unfold closer. cbn [existsb]. intros H.
+  repeat (apply orb_prop in H as [H|H]; [apply String.eqb_eq in H; subst k; repeat split; reflexivity|]). discriminate.
+Qed.
+
+(* an expression followed by a closing token, parsed at a level that admits it *)
+Lemma closed_bare e lvl k rest :
+  core e = true -> A_stmt e -> closer k = true -> node_prec e <= lvl ->
+  Ev (MExpr lvl) (pbody e ++ PK k :: rest) (e, PK k :: rest).
+Proof.
+  intros Hc HA Hk Hl. apply HA; [exact Hl| |].
+  - apply (safe_of_rest_ok e Hc TOP); [apply np_top; exact Hc|apply ctx_closer; exact Hk].
+  - apply Ev_loop_stop. apply continues_closer. exact Hk.
+Qed.
+
+Lemma child_of_A e : core e = true -> is_starred e = false -> A_stmt e ->
   forall s n rest res, (node_prec e <= s -> node_prec e <= n /\ safe e rest = true) ->
     Ev (MLoop n e CNone) rest res -> Ev (MExpr n) (pp s e ++ rest) res.
 Proof.
-  intros Hc HA s n rest res Hcond Hloop. rewrite pp_unfold. destruct (Nat.ltb s (node_prec e)) eqn:E.
+  intros Hc Hns HA s n rest res Hcond Hloop. rewrite pp_unfold. destruct (Nat.ltb s (node_prec e)) eqn:E.
   - cbn [pparen app]. rewrite <- app_assoc. cbn [app].
     eapply Ev_expr_atom; [reflexivity| |exact Hloop].
-    apply Ev_atom_paren. apply HA.
-    + apply np_top. exact Hc.
-    + apply (safe_of_rest_ok e Hc TOP); [apply np_top; exact Hc|apply ctx_closer; reflexivity].
-    + apply Ev_loop_stop. apply continues_closer. reflexivity.
+    apply Ev_atom_paren'.
+    assert (Hh : head_ok e (pbody e ++ PK ")" :: rest)).
+    { pose proof (pp_head e Hc TOP (PK ")" :: rest)) as Hh. rewrite pp_unfold in Hh.
+      assert (Hlt : Nat.ltb TOP (node_prec e) = false) by (apply Nat.ltb_ge; apply np_top; exact Hc).
+      rewrite Hlt in Hh. exact Hh. }
+    eapply Ev_elems_last.
+    + destruct Hh as [t [r [Et [Hst _]]]]. rewrite Et. cbn [hd_is]. apply start_not; [exact Hst|reflexivity].
+    + right. split.
+      * destruct Hh as [t [r [Et [_ Hk]]]]. rewrite Et. cbn [hd_is].
+        destruct (is_key "*" t) eqn:K; [|reflexivity]. specialize (Hk eq_refl). congruence.
+      * apply closed_bare; [exact Hc|exact HA|reflexivity|apply np_top; exact Hc].
+    + reflexivity.
+    + unfold finish. cbn [String.eqb Ascii.eqb Bool.eqb andb negb]. rewrite Hns. reflexivity.
   - apply Nat.ltb_ge in E. destruct (Hcond E) as [Hn Hs]. cbn [pparen]. apply HA; assumption.
 Qed.
 
@@ -483,21 +642,21 @@ Proof. intros H Hle. split; [exact Hle|]. apply Nat.leb_le in Hle. rewrite Hle i
 
 (* right operand of an open operator: parsed at its level, the loop stops at [rest] *)
 Lemma right_child e lvl rest :
-  core e = true -> A_stmt e ->
+  core e = true -> is_starred e = false -> A_stmt e ->
   (if Nat.leb (node_prec e) lvl then safe e rest else true) = true -> continues lvl rest = false ->
   Ev (MExpr lvl) (pp lvl e ++ rest) (e, rest).
 Proof.
-  intros Hc HA Hs Hstop. apply (child_of_A e Hc HA lvl lvl rest).
+  intros Hc Hns HA Hs Hstop. apply (child_of_A e Hc Hns HA lvl lvl rest).
   - intros Hle. apply sub_safe; assumption.
   - apply Ev_loop_stop. exact Hstop.
 Qed.
 
 (* a child followed by a closing token *)
 Lemma closed_child e s lvl k rest :
-  core e = true -> A_stmt e -> closer k = true -> TOP <= lvl \/ s <= lvl ->
+  core e = true -> is_starred e = false -> A_stmt e -> closer k = true -> TOP <= lvl \/ s <= lvl ->
   Ev (MExpr lvl) (pp s e ++ PK k :: rest) (e, PK k :: rest).
 Proof.
-  intros Hc HA Hk Hl. apply (child_of_A e Hc HA s lvl).
+  intros Hc Hns HA Hk Hl. apply (child_of_A e Hc Hns HA s lvl).
   - intros Hle. split; [pose proof (np_top e Hc); lia|].
     apply (safe_of_rest_ok e Hc TOP); [apply np_top; exact Hc|apply ctx_closer; exact Hk].
   - apply Ev_loop_stop. apply continues_closer. exact Hk.
@@ -527,21 +686,21 @@ Definition lastsub (lvl : nat) (rest : list pt) :=
 Lemma bool_chain n o rest res :
   boolop_prec o <= n -> continues (slot_BoolOp o) rest = false ->
   forall ws prev L ch, ws <> [] ->
-    Forall (fun w => core w = true /\ A_stmt w) ws ->
+    Forall (fun w => core w = true /\ is_starred w = false /\ A_stmt w) ws ->
     (forall w, extend_bool ch L o w = BoolOp o (prev ++ [w])) ->
     lastsub (slot_BoolOp o) rest ws = true ->
     Ev (MLoop n (BoolOp o (prev ++ ws)) (CBool o)) rest res ->
     Ev (MLoop n L ch) (btoks o ws ++ rest) res.
 Proof.
   intros Hp Hstop. induction ws as [|w ws' IH]; intros prev L ch Hne HF Hext Hlast Hfin; [contradiction|].
-  inversion HF as [|? ? [Hcw HAw] HF']; subst. rewrite btoks_cons.
+  inversion HF as [|? ? [Hcw [Hnw HAw]] HF']; subst. rewrite btoks_cons.
   destruct ws' as [|w2 t].
   - cbn [btoks flat_map app].
     eapply Ev_loop_bool; [apply classify_boolop|exact Hp| |].
-    + apply right_child; [exact Hcw|exact HAw|exact Hlast|exact Hstop].
+    + apply right_child; [exact Hcw|exact Hnw|exact HAw|exact Hlast|exact Hstop].
     + rewrite Hext. exact Hfin.
   - eapply Ev_loop_bool; [apply classify_boolop|exact Hp| |].
-    + apply (child_of_A w Hcw HAw (slot_BoolOp o) (slot_BoolOp o)).
+    + apply (child_of_A w Hcw Hnw HAw (slot_BoolOp o) (slot_BoolOp o)).
       * intros Hle. split; [exact Hle|]. rewrite btoks_cons.
         apply (safe_of_rest_ok w Hcw (slot_BoolOp o)); [exact Hle|apply ctx_boolop].
       * apply Ev_loop_stop. rewrite btoks_cons. apply continues_same_bool.
@@ -570,7 +729,7 @@ Proof. exact (ctx_cmp o r). Qed.
 Lemma cmp_chain n l0 rest res :
   node_prec_Compare <= n -> continues slot_Compare_comparator rest = false ->
   forall cs ops pops pcs L ch, cs <> [] -> length ops = length cs ->
-    Forall (fun w => core w = true /\ A_stmt w) cs ->
+    Forall (fun w => core w = true /\ is_starred w = false /\ A_stmt w) cs ->
     (forall o c, extend_cmp ch L o c = Compare l0 (pops ++ [o]) (pcs ++ [c])) ->
     lastsub slot_Compare_comparator rest cs = true ->
     Ev (MLoop n (Compare l0 (pops ++ ops) (pcs ++ cs)) CCmp) rest res ->
@@ -578,16 +737,16 @@ Lemma cmp_chain n l0 rest res :
 Proof.
   intros Hp Hstop. induction cs as [|c cs' IH]; intros ops pops pcs L ch Hne Hlen HF Hext Hlast Hfin; [contradiction|].
   destruct ops as [|o ops']; [discriminate|]. injection Hlen as Hlen.
-  inversion HF as [|? ? [Hcc HAc] HF']; subst. rewrite ctoks_cons.
+  inversion HF as [|? ? [Hcc [Hnc HAc]] HF']; subst. rewrite ctoks_cons.
   assert (Hbn : below_not slot_Compare_comparator) by (unfold below_not; vm_compute; lia).
   destruct cs' as [|c2 t].
   - destruct ops'; [|discriminate]. cbn [ctoks app].
     eapply Ev_loop_cmp; [apply classify_cmp; intros _; apply pp_head_not_not; assumption|exact Hp| |].
-    + apply right_child; [exact Hcc|exact HAc|exact Hlast|exact Hstop].
+    + apply right_child; [exact Hcc|exact Hnc|exact HAc|exact Hlast|exact Hstop].
     + rewrite Hext. exact Hfin.
   - destruct ops' as [|o2 ops'']; [discriminate|].
     eapply Ev_loop_cmp; [apply classify_cmp; intros _; apply pp_head_not_not; assumption|exact Hp| |].
-    + apply (child_of_A c Hcc HAc slot_Compare_comparator slot_Compare_comparator).
+    + apply (child_of_A c Hcc Hnc HAc slot_Compare_comparator slot_Compare_comparator).
       * intros Hle. split; [exact Hle|]. rewrite ctoks_cons.
         apply (safe_of_rest_ok c Hcc slot_Compare_comparator); [exact Hle|apply ctx_cmp'].
       * apply Ev_loop_stop. rewrite ctoks_cons. rewrite continues_cmp. vm_compute. reflexivity.
@@ -600,52 +759,159 @@ Proof.
       * rewrite <- !app_assoc. exact Hfin.
 Qed.
 
-Lemma args_chain sl rest :
-  (sl <= TOP) ->
-  forall args acc, args <> [] -> Forall (fun w => core w = true /\ A_stmt w) args ->
-    Ev (MArgs acc) (join [PK ","] (map (pp sl) args) ++ PK ")" :: rest) (ETuple (rev acc ++ args), rest).
+(* ---------- elements of displays ---------- *)
+Definition elemP (w : expr) : Prop :=
+  core w = true /\ match w with Starred v => core v = true /\ is_starred v = false /\ A_stmt v | _ => A_stmt w end.
+
+Lemma starred_pp s v : pp s (Starred v) = PK "*" :: pp slot_Starred_value v.
+Proof. rewrite pp_unfold. cbn [node_prec pbody]. assert (E : Nat.ltb s node_prec_Starred = false) by (apply Nat.ltb_ge; vm_compute; lia). rewrite E. reflexivity. Qed.
+
+(* one element followed by a closing token *)
+Lemma elem_closed w s k rest : elemP w -> closer k = true -> s <= TOP ->
+  elem_ev (pp s w ++ PK k :: rest) w (PK k :: rest).
 Proof.
-  intros Hsl. induction args as [|x t IH]; intros acc Hne HF; [contradiction|].
-  inversion HF as [|? ? [Hcx HAx] HF']; subst.
-  destruct t as [|y t'].
-  - cbn [map join]. replace (rev acc ++ [x]) with (rev (x :: acc)) by reflexivity.
-    apply Ev_args_last; [apply pp_head_not_close; exact Hcx|].
-    apply closed_child; [exact Hcx|exact HAx|reflexivity|left; lia].
-  - change (join [PK ","] (map (pp sl) (x :: y :: t'))) with (pp sl x ++ [PK ","] ++ join [PK ","] (map (pp sl) (y :: t'))).
-    rewrite <- !app_assoc. cbn [app].
-    eapply Ev_args_more; [apply pp_head_not_close; exact Hcx| |].
-    + apply closed_child; [exact Hcx|exact HAx|reflexivity|left; lia].
-    + replace (rev acc ++ x :: y :: t') with (rev (x :: acc) ++ y :: t') by (cbn [rev]; rewrite <- app_assoc; reflexivity).
-      apply IH; [discriminate|exact HF'].
+  intros [Hc Hw] Hk Hs. destruct (is_starred w) eqn:Es.
+  - destruct w; try discriminate. destruct Hw as [Hcv [Hnv HAv]]. rewrite starred_pp. left. split; [reflexivity|].
+    exists w. split; [reflexivity|]. cbn [tl app].
+    apply closed_child; [exact Hcv|exact Hnv|exact HAv|exact Hk|right; apply Nat.le_refl].
+  - right. split; [apply pp_head_nostar; assumption|].
+    assert (HA : A_stmt w) by (destruct w; try exact Hw; discriminate).
+    apply closed_child; [exact Hc|exact Es|exact HA|exact Hk|left; apply Nat.le_refl].
 Qed.
+
+Lemma elem_head_not k w s rest : elemP w ->
+  existsb (String.eqb k) ["("; "lambda"; "not"; "-"; "+"; "~"; "["; "{"; "*"] = false -> hd_is k (pp s w ++ rest) = false.
+Proof. intros [Hc _] Hk. apply pp_head_not_key; assumption. Qed.
+
+Lemma elems_chain cl s rest :
+  closer cl = true -> String.eqb cl "," = false -> s <= TOP ->
+  existsb (String.eqb cl) ["("; "lambda"; "not"; "-"; "+"; "~"; "["; "{"; "*"] = false ->
+  forall l acc cm x, l <> [] -> Forall elemP l ->
+    finish cl (rev l ++ acc) (cm || Nat.leb 2 (length l)) = Some x ->
+    Ev (MElems cl acc cm) (join [PK ","] (map (pp s) l) ++ PK cl :: rest) (x, rest).
+Proof.
+  intros Hcl Hne Hs Hst. induction l as [|w t IH]; intros acc cm x Hnn HF Hfin; [contradiction|].
+  inversion HF as [|? ? Hw HF']; subst.
+  destruct t as [|w2 t'].
+  - cbn [map join]. cbn [rev app length Nat.leb] in Hfin. rewrite orb_false_r in Hfin.
+    eapply Ev_elems_last; [apply elem_head_not; assumption|apply elem_closed; assumption|exact Hne|exact Hfin].
+  - cbn [map]. rewrite join_cons2. fold (map (pp s) (w2 :: t')). rewrite <- !app_assoc. cbn [app].
+    eapply Ev_elems_more; [apply elem_head_not; assumption|apply elem_closed; [exact Hw|reflexivity|exact Hs]|].
+    apply IH; [discriminate|exact HF'|].
+    replace (rev (w2 :: t') ++ w :: acc) with (rev (w :: w2 :: t') ++ acc) by (cbn [rev]; rewrite <- !app_assoc; reflexivity).
+    rewrite orb_true_r in Hfin. exact Hfin.
+Qed.
+
+(* ---------- arguments of a call ---------- *)
+Inductive item := IPos (s : nat) (e : expr) | IKw (kw : option ident * expr).
+Definition itoks (i : item) : list pt := match i with IPos s e => pp s e | IKw kw => kwp kw end.
+Definition iapply (i : item) (st : list expr * list (option ident * expr)) : list expr * list (option ident * expr) :=
+  match i with IPos _ e => (e :: fst st, snd st) | IKw kw => (fst st, kw :: snd st) end.
+Definition itemP (i : item) : Prop :=
+  match i with
+  | IPos s e => elemP e /\ s <= TOP
+  | IKw kw => core (snd kw) = true /\ is_starred (snd kw) = false /\ A_stmt (snd kw)
+  end.
+
+Lemma item_step i acc kws k rest res :
+  itemP i -> (k = "," \/ k = ")") ->
+  args_cont (PK k :: rest) (fst (iapply i (acc, kws))) (snd (iapply i (acc, kws))) res ->
+  Ev (MArgs acc kws) (itoks i ++ PK k :: rest) res.
+Proof.
+  intros Hi Hk Hc. assert (Hck : closer k = true) by (destruct Hk; subst; reflexivity).
+  destruct i as [s e|[[kn|] v]]; cbn [itoks iapply fst snd kwp] in *.
+  - destruct Hi as [He Hs]. destruct (elem_closed e s k rest He Hck Hs) as [[H1 [v [-> H2]]]|[H1 H2]].
+    + eapply Ev_args_star; [apply elem_head_not; [exact He|reflexivity]|apply elem_head_not; [exact He|reflexivity]|exact H1|exact H2|exact Hc].
+    + eapply Ev_args_pos; [apply elem_head_not; [exact He|reflexivity]|apply elem_head_not; [exact He|reflexivity]|exact H1| |exact H2|exact Hc].
+      destruct He as [Hce _]. apply pp_nokw; [exact Hce|]. cbn [hd_is is_key]. destruct Hk; subst; reflexivity.
+  - destruct Hi as [Hcv [Hnv HAv]]. cbn [snd] in *. cbn [app].
+    eapply Ev_args_kw; [|exact Hc].
+    apply closed_child; [exact Hcv|exact Hnv|exact HAv|exact Hck|right; apply Nat.le_refl].
+  - destruct Hi as [Hcv [Hnv HAv]]. cbn [snd] in *. cbn [app].
+    eapply Ev_args_dstar; [reflexivity|reflexivity| |exact Hc]. cbn [tl].
+    apply closed_child; [exact Hcv|exact Hnv|exact HAv|exact Hck|right; apply Nat.le_refl].
+Qed.
+
+Lemma items_chain rest : forall items acc kws,
+  items <> [] -> Forall itemP items ->
+  Ev (MArgs acc kws) (join [PK ","] (map itoks items) ++ PK ")" :: rest)
+     (args_carrier (fst (fold_left (fun st i => iapply i st) items (acc, kws)))
+                   (snd (fold_left (fun st i => iapply i st) items (acc, kws))), rest).
+Proof.
+  induction items as [|i t IH]; intros acc kws Hne HF; [contradiction|]. inversion HF as [|? ? Hi HF']; subst.
+  destruct t as [|i2 t'].
+  - cbn [map join fold_left]. apply item_step; [exact Hi|right; reflexivity|]. right. eexists. split; reflexivity.
+  - cbn [map]. rewrite join_cons2. fold (map itoks (i2 :: t')). rewrite <- !app_assoc. cbn [app].
+    apply item_step; [exact Hi|left; reflexivity|]. left. eexists. split; [reflexivity|].
+    cbn [fold_left]. destruct (iapply i (acc, kws)) as [acc' kws'] eqn:Ei. cbn [fst snd].
+    apply (IH acc' kws'); [discriminate|exact HF'].
+Qed.
+
+Lemma fold_pos s args : forall acc kws,
+  fold_left (fun st i => iapply i st) (map (IPos s) args) (acc, kws) = (rev args ++ acc, kws).
+Proof. induction args as [|a t IH]; intros acc kws; [reflexivity|]. cbn [map fold_left iapply fst snd]. rewrite IH. cbn [rev]. rewrite <- app_assoc. reflexivity. Qed.
+Lemma fold_kw ks : forall acc kws,
+  fold_left (fun st i => iapply i st) (map IKw ks) (acc, kws) = (acc, rev ks ++ kws).
+Proof. induction ks as [|a t IH]; intros acc kws; [reflexivity|]. cbn [map fold_left iapply fst snd]. rewrite IH. cbn [rev]. rewrite <- app_assoc. reflexivity. Qed.
 
 Lemma safe_parts d rest (b : bool) : edge d rest && b = true -> edge d rest = true /\ b = true.
 Proof. intros H. apply andb_prop in H. exact H. Qed.
 
-Lemma Forall_core_A (P := fun e => core e = true -> A_stmt e) vs :
-  Forall P vs -> forallb core vs = true -> Forall (fun w => core w = true /\ A_stmt w) vs.
+(* what the induction proves of a node: the statement for the node itself, or - for a starred element - for its value *)
+Definition P_stmt (e : expr) : Prop := core e = true -> match e with Starred v => A_stmt v | _ => A_stmt e end.
+
+Lemma P_use e : P_stmt e -> core e && negb (is_starred e) = true -> core e = true /\ is_starred e = false /\ A_stmt e.
 Proof.
-  intros HF Hc. rewrite forallb_forall in Hc. rewrite Forall_forall in HF |- *. intros w Hw. split; [apply Hc; exact Hw|].
-  apply HF; [exact Hw|apply Hc; exact Hw].
+  intros H Hc. apply andb_prop in Hc as [Hc Hs]. apply negb_true_iff in Hs. split; [exact Hc|]. split; [exact Hs|].
+  specialize (H Hc). destruct e; try exact H. discriminate.
 Qed.
 
-Theorem A_all : forall e, core e = true -> A_stmt e.
+Lemma Forall_P_ops vs : Forall P_stmt vs -> forallb (fun x => core x && negb (is_starred x)) vs = true ->
+  Forall (fun w => core w = true /\ is_starred w = false /\ A_stmt w) vs.
 Proof.
-  induction e using expr_ind'; intros Hc; cbn [core] in Hc; try discriminate; intros n rest res Hp Hs Hloop; cbn [pbody].
+  intros HF Hc. rewrite forallb_forall in Hc. rewrite Forall_forall in HF |- *. intros w Hw. apply P_use; [apply HF; exact Hw|apply Hc; exact Hw].
+Qed.
+
+Lemma Forall_P_elems l : Forall P_stmt l -> forallb core l = true -> Forall elemP l.
+Proof.
+  intros HF Hc. rewrite forallb_forall in Hc. rewrite Forall_forall in HF |- *. intros w Hw.
+  pose proof (Hc w Hw) as Hcw. pose proof (HF w Hw Hcw) as Hp. split; [exact Hcw|].
+  destruct w; try exact Hp. cbn [core] in Hcw. split; [exact (ec_core _ Hcw)|]. split; [exact (ec_nostar _ Hcw)|exact Hp].
+Qed.
+
+Lemma Forall_P_kws kws : Forall (fun kw => P_stmt (snd kw)) kws ->
+  forallb (fun kw : option ident * expr => core (snd kw) && negb (is_starred (snd kw))) kws = true ->
+  Forall itemP (map IKw kws).
+Proof.
+  intros HF Hc. rewrite forallb_forall in Hc. rewrite Forall_forall in HF |- *. intros i Hi.
+  apply in_map_iff in Hi as [kw [<- Hkw]]. cbn [itemP]. apply P_use; [apply HF; exact Hkw|apply Hc; exact Hkw].
+Qed.
+
+Ltac atom_case HA := cbn [app]; eapply Ev_expr_atom; [reflexivity|HA|].
+
+Theorem A_all : forall e, P_stmt e.
+Proof.
+  unfold P_stmt.
+  induction e using expr_ind'; intros Hc; cbn [core] in Hc; try discriminate; cbn beta iota;
+    try (intros n rest res Hp Hs Hloop; cbn [pbody]).
   - (* Name *) cbn [safe] in Hs. cbn [app]. eapply Ev_expr_atom; [apply prefix_name; exact Hs|apply Ev_atom_name|exact Hloop].
   - (* Constant *) cbn [app]. eapply Ev_expr_atom; [reflexivity|apply Ev_atom_lit|exact Hloop].
-  - (* BinOp *) apply andb_prop in Hc as [Hc1 Hc2]. cbn [safe] in Hs. apply safe_parts in Hs as [He Hsub]. cbn [node_prec] in Hp.
+  - (* Starred: the statement is about the value *)
+    destruct (P_use e IHe Hc) as [_ [_ HA]]. apply HA; assumption.
+  - (* BinOp *) apply andb_prop in Hc as [Hc1 Hc2].
+    destruct (P_use e1 IHe1 Hc1) as [C1 [N1 A1]]. destruct (P_use e2 IHe2 Hc2) as [C2 [N2 A2]].
+    cbn [safe] in Hs. apply safe_parts in Hs as [He Hsub]. cbn [node_prec] in Hp.
     rewrite <- app_assoc. cbn [app].
-    apply (child_of_A e1 Hc1 (IHe1 Hc1) (slot_BinOp_left o) n).
-    + intros Hle. split; [pose proof (np_binop_left e1 o Hc1 Hle); lia|].
-      apply (safe_of_rest_ok e1 Hc1 (slot_BinOp_left o)); [exact Hle|apply ctx_binop].
+    apply (child_of_A e1 C1 N1 A1 (slot_BinOp_left o) n).
+    + intros Hle. split; [pose proof (np_binop_left e1 o C1 Hle); lia|].
+      apply (safe_of_rest_ok e1 C1 (slot_BinOp_left o)); [exact Hle|apply ctx_binop].
     + eapply Ev_loop_bin; [apply classify_binop|exact Hp| |exact Hloop].
-      apply right_child; [exact Hc2|exact (IHe2 Hc2)|exact Hsub|exact (edge_stop _ _ He)].
+      apply right_child; [exact C2|exact N2|exact A2|exact Hsub|exact (edge_stop _ _ He)].
   - (* BoolOp *) apply andb_prop in Hc as [Hlen Hc]. destruct vs as [|v1 [|v2 t]]; try discriminate.
     cbn [safe] in Hs. apply safe_parts in Hs as [He Hsub]. cbn [node_prec] in Hp.
-    unfold Pl in H. pose proof (Forall_core_A _ H Hc) as HF. inversion HF as [|? ? [Hc1 HA1] HF']; subst.
+    unfold Pl in H. pose proof (Forall_P_ops _ H Hc) as HF. inversion HF as [|? ? [Hc1 [Hn1 HA1]] HF']; subst.
     rewrite join_btoks. rewrite <- app_assoc.
-    apply (child_of_A v1 Hc1 HA1 (slot_BoolOp o) n).
+    apply (child_of_A v1 Hc1 Hn1 HA1 (slot_BoolOp o) n).
     + intros Hle. split; [pose proof (np_boolop v1 o Hc1 Hle); lia|]. rewrite btoks_cons.
       apply (safe_of_rest_ok v1 Hc1 (slot_BoolOp o)); [exact Hle|apply ctx_boolop].
     + apply (bool_chain n o rest res Hp (edge_stop _ _ He) (v2 :: t) [v1] v1 CNone).
@@ -654,25 +920,51 @@ Proof.
       * intros w. reflexivity.
       * exact Hsub.
       * apply Ev_loop_flag; [exact (edge_chain _ _ He)|exact Hloop].
-  - (* UnaryOp *) cbn [safe] in Hs. apply safe_parts in Hs as [He Hsub]. cbn [node_prec] in Hp. cbn [app].
+  - (* UnaryOp *) destruct (P_use e IHe Hc) as [C [N A]].
+    cbn [safe] in Hs. apply safe_parts in Hs as [He Hsub]. cbn [node_prec] in Hp. cbn [app].
     eapply Ev_expr_un; [apply prefix_unop|exact Hp| |exact Hloop].
-    apply right_child; [exact Hc|exact (IHe Hc)|exact Hsub|exact (edge_stop _ _ He)].
+    apply right_child; [exact C|exact N|exact A|exact Hsub|exact (edge_stop _ _ He)].
+  - (* List *) unfold Pl in H. pose proof (Forall_P_elems _ H Hc) as HF. cbn [app]. rewrite <- app_assoc. cbn [app].
+    eapply Ev_expr_atom; [reflexivity| |exact Hloop]. apply Ev_atom_list.
+    destruct l as [|x t].
+    + cbn [map join app]. apply (Ev_elems_close "]" [] false rest (ETuple [])). reflexivity.
+    + apply (elems_chain "]" slot_List_elt rest); try reflexivity; [vm_compute; lia|discriminate|exact HF|].
+      unfold finish. cbn [String.eqb Ascii.eqb Bool.eqb andb]. rewrite app_nil_r, rev_involutive. reflexivity.
+  - (* Tuple *) unfold Pl in H. pose proof (Forall_P_elems _ H Hc) as HF.
+    destruct l as [|x [|y t]].
+    + cbn [map join app]. eapply Ev_expr_atom; [reflexivity| |exact Hloop]. apply Ev_atom_paren'.
+      apply (Ev_elems_close ")" [] false rest (ETuple [])). reflexivity.
+    + cbn [app]. rewrite <- app_assoc. cbn [app].
+      eapply Ev_expr_atom; [reflexivity| |exact Hloop]. apply Ev_atom_paren'.
+      inversion HF as [|? ? Hx _]; subst.
+      eapply Ev_elems_more; [apply elem_head_not; [exact Hx|reflexivity]|apply elem_closed; [exact Hx|reflexivity|vm_compute; lia]|].
+      apply (Ev_elems_close ")" [x] true rest (ETuple [x])). reflexivity.
+    + cbn [app]. rewrite <- app_assoc. cbn [app].
+      eapply Ev_expr_atom; [reflexivity| |exact Hloop]. apply Ev_atom_paren'.
+      apply (elems_chain ")" slot_Tuple_elt rest); try reflexivity; [vm_compute; lia|discriminate|exact HF|].
+      unfold finish. cbn [length Nat.leb orb negb andb]. rewrite andb_false_r. rewrite app_nil_r, rev_involutive. reflexivity.
+  - (* Set *) apply andb_prop in Hc as [Hlen Hc]. unfold Pl in H. pose proof (Forall_P_elems _ H Hc) as HF.
+    destruct l as [|x t]; [discriminate|]. cbn [app]. rewrite <- app_assoc. cbn [app].
+    eapply Ev_expr_atom; [reflexivity| |exact Hloop]. apply Ev_atom_set.
+    apply (elems_chain "}" slot_Set_elt rest); try reflexivity; [vm_compute; lia|discriminate|exact HF|].
+    unfold finish. cbn [String.eqb Ascii.eqb Bool.eqb andb]. rewrite app_nil_r, rev_involutive. reflexivity.
   - (* Compare *) apply andb_prop in Hc as [Hc Hcs]. apply andb_prop in Hc as [Hc Hlen1]. apply andb_prop in Hc as [Hcl Hlen].
+    destruct (P_use e IHe Hcl) as [C [N A]].
     apply Nat.eqb_eq in Hlen. cbn [safe] in Hs. apply safe_parts in Hs as [He Hsub]. cbn [node_prec] in Hp.
-    unfold Pl in H. pose proof (Forall_core_A _ H Hcs) as HF.
-    fold ctoks. change ((fix go (cs0 : list expr) (ops0 : list cmpop) {struct cs0} : list pt :=
+    unfold Pl in H. pose proof (Forall_P_ops _ H Hcs) as HF.
+    change ((fix go (cs0 : list expr) (ops0 : list cmpop) {struct cs0} : list pt :=
           match cs0 with
           | [] => []
           | c :: cs' => match ops0 with [] => [] | o :: ops' => map PK (cmp_keys o) ++ pp slot_Compare_comparator c ++ go cs' ops' end
           end) cs ops) with (ctoks cs ops).
     rewrite <- app_assoc.
     destruct cs as [|c1 cs']; [discriminate|]. destruct ops as [|o1 ops']; [discriminate|].
-    apply (child_of_A e Hcl (IHe Hcl) slot_Compare_left n).
+    apply (child_of_A e C N A slot_Compare_left n).
     + intros Hle. split.
       * assert (G : node_prec e <= node_prec_Compare).
-        { apply (np_small slot_Compare_left node_prec_Compare e); [vm_compute; reflexivity|exact Hcl|exact Hle]. }
+        { apply (np_small slot_Compare_left node_prec_Compare e); [vm_compute; reflexivity|exact C|exact Hle]. }
         lia.
-      * rewrite ctoks_cons. apply (safe_of_rest_ok e Hcl slot_Compare_left); [exact Hle|apply ctx_cmp].
+      * rewrite ctoks_cons. apply (safe_of_rest_ok e C slot_Compare_left); [exact Hle|apply ctx_cmp].
     + apply (cmp_chain n e rest res Hp (edge_stop _ _ He) (c1 :: cs') (o1 :: ops') [] [] e CNone).
       * discriminate.
       * exact Hlen.
@@ -680,73 +972,98 @@ Proof.
       * intros o c. reflexivity.
       * exact Hsub.
       * apply Ev_loop_flag; [exact (edge_chain _ _ He)|exact Hloop].
-  - (* Attribute *) cbn [node_prec] in Hp. rewrite <- app_assoc. cbn [app].
+  - (* Attribute *) destruct (P_use e IHe Hc) as [C [N A]]. cbn [node_prec] in Hp. rewrite <- app_assoc. cbn [app].
     destruct (int_literal e) eqn:Ei.
     { cbn [pparen app]. rewrite <- app_assoc. cbn [app].
       eapply Ev_expr_atom; [reflexivity| |apply Ev_loop_dot; exact Hloop].
-      apply Ev_atom_paren. apply closed_child; [exact Hc|exact (IHe Hc)|reflexivity|left; lia]. }
+      apply Ev_atom_paren'.
+      eapply Ev_elems_last; [apply pp_head_not_close; exact C|right; split; [apply pp_head_nostar; assumption|]|reflexivity|].
+      - apply closed_child; [exact C|exact N|exact A|reflexivity|left; apply Nat.le_refl].
+      - unfold finish. cbn [String.eqb Ascii.eqb Bool.eqb andb negb]. rewrite N. reflexivity. }
     cbn [pparen].
-    apply (child_of_A e Hc (IHe Hc) slot_Attribute_value n).
+    apply (child_of_A e C N A slot_Attribute_value n).
     + intros Hle. split.
       * assert (G : node_prec e <= node_prec_Attribute).
-        { apply (np_small slot_Attribute_value node_prec_Attribute e); [vm_compute; reflexivity|exact Hc|exact Hle]. }
+        { apply (np_small slot_Attribute_value node_prec_Attribute e); [vm_compute; reflexivity|exact C|exact Hle]. }
         lia.
-      * apply (safe_of_rest_ok e Hc slot_Attribute_value); [exact Hle|apply ctx_trailer; reflexivity].
+      * apply (safe_of_rest_ok e C slot_Attribute_value); [exact Hle|apply ctx_trailer; reflexivity].
     + apply Ev_loop_dot. exact Hloop.
-  - (* Subscript *) apply andb_prop in Hc as [Hc _]. apply andb_prop in Hc as [Hc1 Hc2]. cbn [node_prec] in Hp.
+  - (* Subscript *) apply andb_prop in Hc as [Hc _]. apply andb_prop in Hc as [Hc1 Hc2].
+    destruct (P_use e1 IHe1 Hc1) as [C1 [N1 A1]]. destruct (P_use e2 IHe2 Hc2) as [C2 [N2 A2]]. cbn [node_prec] in Hp.
     rewrite <- app_assoc. cbn [app]. rewrite <- app_assoc. cbn [app].
-    apply (child_of_A e1 Hc1 (IHe1 Hc1) slot_Subscript_value n).
+    apply (child_of_A e1 C1 N1 A1 slot_Subscript_value n).
     + intros Hle. split.
       * assert (G : node_prec e1 <= node_prec_Subscript).
-        { apply (np_small slot_Subscript_value node_prec_Subscript e1); [vm_compute; reflexivity|exact Hc1|exact Hle]. }
+        { apply (np_small slot_Subscript_value node_prec_Subscript e1); [vm_compute; reflexivity|exact C1|exact Hle]. }
         lia.
-      * apply (safe_of_rest_ok e1 Hc1 slot_Attribute_value); [exact Hle|apply ctx_trailer; reflexivity].
+      * apply (safe_of_rest_ok e1 C1 slot_Attribute_value); [exact Hle|apply ctx_trailer; reflexivity].
     + eapply Ev_loop_sub; [|exact Hloop].
-      apply closed_child; [exact Hc2|exact (IHe2 Hc2)|reflexivity|right; lia].
-  - (* Call *) destruct kws; [|discriminate]. apply andb_prop in Hc as [Hcf Hca]. cbn [node_prec] in Hp.
-    unfold Pl in H. pose proof (Forall_core_A _ H Hca) as HF.
+      apply closed_child; [exact C2|exact N2|exact A2|reflexivity|right; lia].
+  - (* Call *) apply andb_prop in Hc as [Hc Hck]. apply andb_prop in Hc as [Hcf Hca].
+    destruct (P_use e IHe Hcf) as [C [N A]]. cbn [node_prec] in Hp.
+    unfold Pl in H. pose proof (Forall_P_elems _ H Hca) as HFa. pose proof (Forall_P_kws _ H0 Hck) as HFk.
     rewrite <- app_assoc. cbn [app]. rewrite <- app_assoc.
-    apply (child_of_A e Hcf (IHe Hcf) slot_Call_func n).
+    apply (child_of_A e C N A slot_Call_func n).
     + intros Hle. split.
       * assert (G : node_prec e <= node_prec_Call).
-        { apply (np_small slot_Call_func node_prec_Call e); [vm_compute; reflexivity|exact Hcf|exact Hle]. }
+        { apply (np_small slot_Call_func node_prec_Call e); [vm_compute; reflexivity|exact C|exact Hle]. }
         lia.
-      * apply (safe_of_rest_ok e Hcf slot_Attribute_value); [exact Hle|apply ctx_trailer; reflexivity].
-    + eapply Ev_loop_call; [|exact Hloop].
-      destruct args as [|x [|y t]].
-      * cbn [join map app]. apply (Ev_args_nil []).
-      * cbn [app]. change (pp slot_Call_onlyarg x) with (join [PK ","] (map (pp slot_Call_onlyarg) [x])).
-        apply (args_chain slot_Call_onlyarg rest (Nat.le_refl _) [x] []); [discriminate|exact HF].
-      * cbn [app]. apply (args_chain slot_Call_arg rest); [vm_compute; lia|discriminate|exact HF].
-  - (* NamedExpr *) cbn [safe] in Hs. apply safe_parts in Hs as [He Hsub]. cbn [node_prec] in Hp. cbn [app].
+      * apply (safe_of_rest_ok e C slot_Attribute_value); [exact Hle|apply ctx_trailer; reflexivity].
+    + assert (Hitems : forall s, s <= TOP -> (args <> [] \/ kws <> []) ->
+                Ev (MArgs [] []) (join [PK ","] (map (pp s) args ++ map kwp kws) ++ PK ")" :: rest)
+                   (Call (Name "") args kws, rest)).
+      { intros s Hsl Hne.
+        replace (map (pp s) args ++ map kwp kws) with (map itoks (map (IPos s) args ++ map IKw kws))
+          by (rewrite map_app, !map_map; reflexivity).
+        pose proof (items_chain rest (map (IPos s) args ++ map IKw kws) [] []) as HI.
+        rewrite fold_left_app, fold_pos, fold_kw in HI. cbn [fst snd] in HI. rewrite !app_nil_r in HI.
+        unfold args_carrier in HI. rewrite !rev_involutive in HI. apply HI.
+        - destruct Hne as [Hne|Hne]; [destruct args; [contradiction|discriminate]|destruct kws; [contradiction|]].
+          destruct args; discriminate.
+        - apply Forall_app. split; [|exact HFk]. rewrite Forall_forall in HFa |- *. intros i Hi.
+          apply in_map_iff in Hi as [a [<- Ha]]. split; [apply HFa; exact Ha|exact Hsl]. }
+      eapply Ev_loop_call; [|exact Hloop].
+      destruct args as [|x [|y t]]; destruct kws as [|k1 kt].
+      * cbn [map join app]. apply (Ev_args_close [] []).
+      * apply (Hitems slot_Call_arg); [vm_compute; lia|right; discriminate].
+      * cbn [app]. change (pp slot_Call_onlyarg x) with (join [PK ","] (map (pp slot_Call_onlyarg) [x] ++ map kwp [])).
+        apply (Hitems slot_Call_onlyarg); [apply Nat.le_refl|left; discriminate].
+      * apply (Hitems slot_Call_arg); [vm_compute; lia|left; discriminate].
+      * apply (Hitems slot_Call_arg); [vm_compute; lia|left; discriminate].
+      * apply (Hitems slot_Call_arg); [vm_compute; lia|left; discriminate].
+  - (* NamedExpr *) destruct (P_use e IHe Hc) as [C [N A]].
+    cbn [safe] in Hs. apply safe_parts in Hs as [He Hsub]. cbn [node_prec] in Hp. cbn [app].
     eapply Ev_expr_wal; [exact Hp| |exact Hloop].
-    apply right_child; [exact Hc|exact (IHe Hc)|exact Hsub|exact (edge_stop _ _ He)].
+    apply right_child; [exact C|exact N|exact A|exact Hsub|exact (edge_stop _ _ He)].
   - (* Lambda *) destruct po; [|discriminate]. destruct ar; [|discriminate]. destruct va; [discriminate|]. destruct ko; [|discriminate].
     destruct kd; [|discriminate]. destruct kw; [discriminate|]. destruct de; [|discriminate].
+    destruct (P_use e IHe Hc) as [C [N A]].
     cbn [safe] in Hs. apply safe_parts in Hs as [He Hsub]. cbn [node_prec] in Hp. cbn [app].
     eapply Ev_expr_lam; [exact Hp| |exact Hloop].
-    apply right_child; [exact Hc|exact (IHe Hc)|exact Hsub|exact (edge_stop _ _ He)].
+    apply right_child; [exact C|exact N|exact A|exact Hsub|exact (edge_stop _ _ He)].
   - (* IfExp *) apply andb_prop in Hc as [Hc Hc3]. apply andb_prop in Hc as [Hc1 Hc2].
+    destruct (P_use e1 IHe1 Hc1) as [C1 [N1 A1]]. destruct (P_use e2 IHe2 Hc2) as [C2 [N2 A2]]. destruct (P_use e3 IHe3 Hc3) as [C3 [N3 A3]].
     cbn [safe] in Hs. apply safe_parts in Hs as [He Hsub]. cbn [node_prec] in Hp.
     rewrite <- app_assoc. cbn [app]. rewrite <- app_assoc. cbn [app].
-    apply (child_of_A e2 Hc2 (IHe2 Hc2) slot_IfExp_body n).
+    apply (child_of_A e2 C2 N2 A2 slot_IfExp_body n).
     + intros Hle. split.
       * assert (G : node_prec e2 <= node_prec_IfExp).
-        { apply (np_small slot_IfExp_body node_prec_IfExp e2); [vm_compute; reflexivity|exact Hc2|exact Hle]. }
+        { apply (np_small slot_IfExp_body node_prec_IfExp e2); [vm_compute; reflexivity|exact C2|exact Hle]. }
         lia.
-      * apply (safe_of_rest_ok e2 Hc2 slot_IfExp_body); [exact Hle|apply ctx_if].
+      * apply (safe_of_rest_ok e2 C2 slot_IfExp_body); [exact Hle|apply ctx_if].
     + eapply Ev_loop_if; [exact Hp| | |exact Hloop].
-      * apply closed_child; [exact Hc1|exact (IHe1 Hc1)|reflexivity|right; lia].
-      * apply right_child; [exact Hc3|exact (IHe3 Hc3)|exact Hsub|exact (edge_stop _ _ He)].
+      * apply closed_child; [exact C1|exact N1|exact A1|reflexivity|right; lia].
+      * apply right_child; [exact C3|exact N3|exact A3|exact Hsub|exact (edge_stop _ _ He)].
 Qed.
 
 (* THEOREM: for every tree of the core, of any depth, the parser reads back exactly the tree from what the printer
    wrote (with any sufficiently large fuel, and nothing left over) *)
-Theorem roundtrip_core : forall e, core e = true ->
+Theorem roundtrip_core : forall e, core e = true -> is_starred e = false ->
   exists f0, forall f, f0 <= f -> pc f (MExpr slot_top) (pp slot_top e) = Some (e, []).
 Proof.
-  intros e Hc. rewrite <- (app_nil_r (pp slot_top e)).
-  apply (child_of_A e Hc (A_all e Hc) slot_top slot_top [] (e, [])).
+  intros e Hc Hns. rewrite <- (app_nil_r (pp slot_top e)).
+  assert (HA : A_stmt e) by (pose proof (A_all e Hc) as H; destruct e; try exact H; discriminate).
+  apply (child_of_A e Hc Hns HA slot_top slot_top [] (e, [])).
   - intros Hle. split; [exact Hle|]. apply (safe_of_rest_ok e Hc slot_top); [exact Hle|vm_compute; reflexivity].
   - apply Ev_loop_stop. reflexivity.
 Qed.
